@@ -32,7 +32,8 @@ static inline iora_skey iora_skey_make(const char *p, size_t n)
 static inline bool iora_skey_empty(const iora_skey *k) { return k->n == 0; }
 static inline size_t iora_skey_size(const iora_skey *k) { return k->n; }
 #define IORA_SMAP1(M, V, VDEFAULT) \
-typedef struct { bool has; V val; V other; bool touched; bool gtouched; iora_skey lastkey; } M; \
+typedef struct { bool has; V val; V other; bool touched; bool gtouched; iora_skey lastkey; \
+                 size_t n; size_t gpos; /* iteration ghost: number of entries, position of the ghost entry (has => gpos < n) */ } M; \
 typedef struct { const M *map; bool found; V *second; iora_skey first; } M##_iter; \
 static inline M##_iter M##_find(M *m, iora_skey k) \
 { M##_iter it; it.map = m; it.first = k; \
@@ -49,6 +50,30 @@ static inline size_t M##_erase(M *m, iora_skey k) \
 { m->touched = true; m->lastkey = k; \
   if (k.is_g) { m->gtouched = true; bool p = m->has; m->has = false; return p ? 1 : 0; } \
   return nondet_bool() ? 1 : 0; }
+/* ---- iteration (`for (auto it = m.begin(); it != m.end(); ) { ... it = m.erase(it) / ++it }`): the map has an arbitrary ghost number of
+ * entries `n`; the ghost key's entry (if present) sits at the arbitrary position `gpos < n`; every other position holds some other key with an
+ * ARBITRARY value (drawn anew at every access).  A cursor is {map, index}.  erase(cursor) removes the entry under the cursor: the index then
+ * designates the next entry (n and, if it lies behind, gpos move down by one).  Sound for clauses "for every key": each entry is visited
+ * exactly when its position is reached, whatever the order.  IORA_SMAP1_ITER(M, V) adds these operations to a map declared by IORA_SMAP1. */
+#define IORA_SMAP1_ITER(M, V) \
+typedef struct { M *map; size_t i; } M##_cursor; \
+V nondet_##M##_value(void); \
+static inline M##_cursor M##_begin(M *m) { M##_cursor c; c.map = m; c.i = 0; return c; } \
+static inline bool M##_at_end(const M *m, M##_cursor c) { IORA_ASSERT(c.map == m, "iterator compared with end() of the map it came from"); return c.i >= m->n; } \
+static inline bool M##_cur_is_g(M##_cursor c) { return c.map->has && c.i == c.map->gpos; } \
+static inline iora_skey M##_cur_first(M##_cursor c) \
+{ IORA_ASSERT(c.i < c.map->n, "unordered_map iterator dereferenced only when it is not end()"); \
+  iora_skey k; k.p = NULL; k.n = nondet_size_t(); k.is_g = M##_cur_is_g(c); return k; } \
+static inline V *M##_cur_second(M##_cursor c) \
+{ IORA_ASSERT(c.i < c.map->n, "unordered_map iterator dereferenced only when it is not end()"); \
+  if (M##_cur_is_g(c)) return &c.map->val; \
+  c.map->other = nondet_##M##_value(); return &c.map->other; } \
+static inline M##_cursor M##_erase_at(M *m, M##_cursor c) \
+{ IORA_ASSERT(c.map == m && c.i < m->n, "unordered_map::erase(iterator): dereferenceable iterator of this map"); \
+  m->touched = true; \
+  if (M##_cur_is_g(c)) { m->has = false; m->gtouched = true; } else if (m->has && c.i < m->gpos) m->gpos--; \
+  m->n--; return c; } \
+static inline void M##_cursor_next(M##_cursor *c) { IORA_ASSERT(c->i < c->map->n, "++ on end()"); c->i++; }
 /* `it == m.end()` */
 #define IORA_SMAP1_IS_END(it, m) (IORA_ASSERT((it).map == (m), "iterator compared with end() of the map it came from"), !(it).found)
 /* `it->second` */
